@@ -224,3 +224,53 @@ def rule_N1(ctx, files=None):
             res.ob(True, None)
     res.analysed['folded_arguments'] = nfold
     return res, nfold
+
+
+# ------------------------------------------------------------------ D3: stale sine / cosine of a corrected angle
+def rule_D3(ctx, files=None):
+    res = RuleResult('D3', 'stale companions: when a local holds sin(v) or cos(v) and v is assigned again afterwards (a Newton '
+                           'correction), the sine/cosine is recomputed before it is read again')
+    npairs = 0
+    for f in sorted(ctx.lib_fns(), key=lambda x: (x.file, x.line)):
+        if not _in(f, files) or f.d.get('body', -1) < 0:
+            continue
+        defs = []
+        for i, n in f.all_nodes():
+            if n['k'] == 'DeclStmt':
+                for d in n['decls']:
+                    if d.get('init', -1) >= 0:
+                        defs.append(((n['l'], n.get('c', 0)), d['d'], d['init'], i, True, d.get('name', '?')))
+            elif n['k'] in ('BinaryOperator', 'CompoundAssignOperator') and n.get('op', '').endswith('=') and \
+                    n['op'] not in ('==', '!=', '<=', '>='):
+                ln = f.nodes[f.strip(n['ch'][0])]
+                if ln['k'] == 'DeclRefExpr' and ln.get('rk') in ('local', 'param'):
+                    defs.append(((n['l'], n.get('c', 0)), ln['d'], n['ch'][1], i, False, ln.get('name')))
+        defs.sort()
+        for pos, w, rhs, st, isdecl, wname in defs:
+            rn = f.nodes[f.strip_casts(rhs)]
+            ce = rn.get('callee') or {}
+            if ce.get('name') not in ('sin', 'cos') or ce.get('inrepo'):
+                continue
+            rv = {f.nodes[j]['d'] for j in f.walk(rhs) if f.nodes[j]['k'] == 'DeclRefExpr' and f.nodes[j].get('rk') in ('local', 'param')}
+            if len(rv) != 1:
+                continue
+            v = next(iter(rv))
+            npairs += 1
+            for pos2, v2, rhs2, st2, isdecl2, vname in defs:
+                if v2 != v or pos2 <= pos or isdecl2:
+                    continue
+                redefs = [p3 for p3, w3, _, _, _, _ in defs if w3 == w and p3 > pos2]
+                nxt = min(redefs) if redefs else (10 ** 9, 0)
+                inside = set(f.walk(st2))
+                stale = [j for j, nn in f.all_nodes() if nn['k'] == 'DeclRefExpr' and nn.get('d') == w and
+                         pos2 < (nn['l'], nn.get('c', 0)) < nxt and j not in inside]
+                ok = not stale
+                res.ob(ok, None)
+                if stale:
+                    res.fail(f.q, '%s/%s' % (wname, vname), f.loc(stale[0]),
+                             '%s = %s(%s) (line %d); %s is assigned again at line %d, and %s is read at line %d without being '
+                             'recomputed: it still describes the old %s'
+                             % (wname, ce.get('name'), vname, pos[0], vname, pos2[0], wname, f.nodes[stale[0]]['l'], vname))
+                    break
+    res.analysed['sine_cosine_companions'] = npairs
+    return res, npairs
